@@ -485,12 +485,23 @@ Lemma holder_ok_spec : forall s i t, wf s -> holder_ok s i t = true ->
   inst_ok s i = true /\ In (holder_of s i t) (o_vis (getd s i)) /\
   (owner s (holder_of s i t) = None -> In i (o_vis (getd s (holder_of s i t)))).
 Proof.
-  intros s i t W H. unfold holder_ok in H.
+  intros s i t W H. unfold holder_ok, holder_acc, involvedb in H.
   apply andb_true_iff in H; destruct H as [H H0]. apply andb_true_iff in H; destruct H as [H H1].
   apply andb_true_iff in H; destruct H as [H H2].
   apply memb_In in H1. repeat split; auto.
   intros K. unfold owner in K. rewrite K in H0. apply memb_In; auto.
 Qed.
+
+Lemma holder_acc_spec : forall s i t, wf s -> holder_acc s i t = true ->
+  inst_ok s i = true /\ In (holder_of s i t) (o_vis (getd s i)).
+Proof.
+  intros s i t W H. unfold holder_acc in H.
+  apply andb_true_iff in H; destruct H as [H H1]. apply andb_true_iff in H; destruct H as [H H2].
+  apply memb_In in H1. split; auto.
+Qed.
+
+Lemma holder_ok_split : forall s i t, holder_acc s i t = true -> involvedb s i (holder_of s i t) = true -> holder_ok s i t = true.
+Proof. intros; unfold holder_ok; apply andb_true_iff; auto. Qed.
 
 (* whatever the instance reaches structurally is covered for each of its holders *)
 Lemma holder_covers : forall s i t r, wf s -> holder_ok s i t = true -> sreach s i r ->
@@ -618,6 +629,40 @@ Proof.
     split; auto. eapply ext_trans; eauto.
 Qed.
 
+Lemma wf_alloc_globals : forall n s i,
+  wf s -> alive s i = true ->
+  wf (fst (alloc_globals s i n)) /\ ext s (fst (alloc_globals s i n)).
+Proof.
+  induction n as [|n IH]; intros s i W A; simpl.
+  - split; auto using ext_refl.
+  - set (o := mkObj KGlobal [] [] [None] None [] true false).
+    destruct (wf_alloc s o W) as [W1 [E1 [A1 G1]]]; auto.
+    { intros x K; destruct K. }
+    { simpl. intros r [K | []]. discriminate. }
+    change (fst (alloc s o)) with (with_heap s (heap s ++ [o])) in *.
+    set (s1 := with_heap s (heap s ++ [o])) in *.
+    destruct (wf_add_vis s1 i (length (heap s)) W1 A1) as [W2 E2].
+    { left. unfold owner. rewrite G1. reflexivity. }
+    assert (E12 : ext s (add_vis s1 i (length (heap s)))) by (eapply ext_trans; eauto).
+    destruct (IH (add_vis s1 i (length (heap s))) i W2) as [W3 E3].
+    { eapply ext_alive; eauto. }
+    destruct (alloc_globals (add_vis s1 i (length (heap s))) i n) as [s3 xs] eqn:EQ. simpl in *.
+    split; auto. eapply ext_trans; eauto.
+Qed.
+
+Lemma wf_link_globals : forall gs s i,
+  wf s -> (forall g, In g gs -> alive s g = true /\ owner s g = None) ->
+  wf (link_globals s i gs) /\ ext s (link_globals s i gs).
+Proof.
+  induction gs as [|g gs IH]; intros s i W H; simpl.
+  - split; auto using ext_refl.
+  - destruct (H g (or_introl eq_refl)) as [Ag Og].
+    destruct (wf_add_vis s i g W Ag (or_introl Og)) as [W1 E1].
+    destruct (IH (add_vis s i g) i W1) as [W2 E2].
+    { intros g' K. destruct (H g' (or_intror K)). split; [eapply ext_alive; eauto | rewrite (ext_owner s); eauto]. }
+    split; auto. eapply ext_trans; eauto.
+Qed.
+
 Lemma wf_fold_set_ref : forall els s i, wf s ->
   wf (fold_left (fun st e => let '(t, k, f) := e in set_ref st i t k f) els s).
 Proof.
@@ -669,16 +714,27 @@ Proof.
   split; [eapply wf_closed; eauto using in_vis_edges | apply is_none_spec; auto].
 Qed.
 
+Lemma impg_ok_spec : forall s p, wf s -> impg_ok s p = true ->
+  alive s (holder_of s (fst p) (snd p)) = true /\ owner s (holder_of s (fst p) (snd p)) = None.
+Proof.
+  intros s [j t] W H. unfold impg_ok in H. simpl.
+  apply andb_true_iff in H; destruct H as [H O]. apply andb_true_iff in H; destruct H as [H _].
+  apply andb_true_iff in H; destruct H as [H _]. apply andb_true_iff in H; destruct H as [H _].
+  destruct (holder_acc_spec s j t W H) as [I K]. destruct (inst_ok_spec s j W I) as [A _].
+  split; [eapply wf_closed; eauto using in_vis_edges | apply is_none_spec; auto].
+Qed.
+
 Lemma wf_instantiate : forall s sp, wf s -> wf (instantiate s sp).
 Proof.
   intros s sp W. unfold instantiate. destruct (can_instantiate s sp) eqn:C; auto.
   unfold can_instantiate in C.
+  apply andb_true_iff in C; destruct C as [C CG].
   apply andb_true_iff in C; destruct C as [C CT]. apply andb_true_iff in C; destruct C as [C CF].
   apply andb_true_iff in C; destruct C as [C OR]. apply andb_true_iff in C; destruct C as [C OC].
   apply andb_true_iff in C; destruct C as [C _]. apply andb_true_iff in C; destruct C as [C _].
   apply andb_true_iff in C; destruct C as [C AC]. apply andb_true_iff in C; destruct C as [AR _].
   apply is_none_spec in OR. apply is_none_spec in OC.
-  rewrite forallb_forall in CF, CT.
+  rewrite forallb_forall in CF, CT, CG.
   (* the instance object *)
   set (oI := mkObj KInstance [] [RUNTIME] [] None [] true false).
   destruct (wf_alloc s oI W) as [W1 [E1 [A1 G1]]]; auto.
@@ -745,11 +801,24 @@ Proof.
     destruct (impt_ok_spec s p W (CT p Kp)) as [At Ot].
     split; [apply (ext_alive s s7); auto | rewrite (ext_owner s s7); auto]. }
   set (s8 := link_tables s7 ni timp) in *.
-  destruct (wf_set_dir s8 ni (nme :: timp ++ texp ++ tpriv ++ globs) W8) as [W9 E9].
-  match goal with |- context [upd_obj (upd_obj s8 ni ?f) nme (set_dir recs)] => set (s9a := upd_obj s8 ni f) in * end.
+  assert (E18 : ext s1 s8) by (apply (ext_trans s1 s7 s8); auto).
+  (* exported and imported globals *)
+  destruct (wf_alloc_globals (sp_nexpg sp) s8 ni W8) as [W8a E8a].
+  { apply (NI s8 E18). }
+  destruct (alloc_globals s8 ni (sp_nexpg sp)) as [s8a gexp] eqn:Q8a. simpl fst in *.
+  assert (E18a : ext s1 s8a) by (apply (ext_trans s1 s8 s8a); auto).
+  assert (E08a : ext s s8a) by (apply (ext_trans s s1 s8a); auto).
+  set (gimp := map (fun p : nat * nat => holder_of s (fst p) (snd p)) (sp_impg sp)).
+  destruct (wf_link_globals gimp s8a ni W8a) as [W8b E8b].
+  { intros g K. unfold gimp in K. apply in_map_iff in K. destruct K as [p [<- Kp]].
+    destruct (impg_ok_spec s p W (CG p Kp)) as [Ag Og].
+    split; [apply (ext_alive s s8a); auto | rewrite (ext_owner s s8a); auto]. }
+  set (s8b := link_globals s8a ni gimp) in *.
+  destruct (wf_set_dir s8b ni (nme :: timp ++ texp ++ tpriv ++ globs ++ gexp ++ gimp) W8b) as [W9 E9].
+  match goal with |- context [upd_obj (upd_obj s8b ni ?f) nme (set_dir recs)] => set (s9a := upd_obj s8b ni f) in * end.
   destruct (wf_set_dir s9a nme recs W9) as [W9' E9'].
   set (s9 := upd_obj s9a nme (set_dir recs)) in *.
-  assert (E19 : ext s1 s9) by (apply (ext_trans s1 s9a s9); auto; apply (ext_trans s1 s8 s9a); auto; apply (ext_trans s1 s7 s8); auto).
+  assert (E19 : ext s1 s9) by (apply (ext_trans s1 s9a s9); auto; apply (ext_trans s1 s8b s9a); auto; apply (ext_trans s1 s8a s8b); auto).
   destruct (wf_add_reg s9 RUNTIME ni W9') as [W10 E10].
   { apply (NI s9 E19). } { left. apply (NI s9 E19). }
   apply wf_fold_set_ref.
@@ -771,23 +840,27 @@ Proof.
   intros s o W T. destruct o; simpl.
   - apply wf_compile; auto.
   - apply wf_instantiate; auto.
-  - apply wf_set_ref; auto.
-  - destruct (holder_ok s i ts && holder_ok s i td) eqn:E; auto.
-    apply andb_true_iff in E; destruct E as [E1 E2].
-    apply wf_set_slot; auto. intros r Hr _.
-    apply holder_covers; auto.
-    destruct (holder_ok_spec s i ts W E1) as [I [Hv _]]. destruct (inst_ok_spec s i W I) as [A _].
-    eapply reach_slot; eauto. eapply nth_Some_In; eauto.
-  - destruct (holder_ok s i t) eqn:E; auto.
-    apply wf_set_slot; auto. intros r Hr; discriminate.
-  - simpl in T. destruct (rec_ok s i f && holder_ok s j t) eqn:E; auto.
+  - simpl in T. destruct (holder_acc s i t && rec_ok s i f) eqn:E; auto.
     simpl in T. apply andb_true_iff in E; destruct E as [E1 E2].
     apply wf_set_slot; auto. intros r Hr _. inversion Hr; subst.
-    apply holder_covers; auto.
+    apply holder_covers; auto using holder_ok_split. apply rec_ok_spec; auto.
+  - simpl in T. destruct (holder_acc s i ts && holder_acc s i td) eqn:E; auto.
+    simpl in T. apply andb_true_iff in E; destruct E as [E1 E2].
+    apply wf_set_slot; auto. intros r Hr _.
+    apply holder_covers; auto using holder_ok_split.
+    destruct (holder_acc_spec s i ts W E1) as [I Hv]. destruct (inst_ok_spec s i W I) as [A _].
+    eapply reach_slot; eauto. eapply nth_Some_In; eauto.
+  - destruct (holder_acc s i t) eqn:E; auto.
+    apply wf_set_slot; auto. intros r Hr; discriminate.
+  - simpl in T. destruct (rec_ok s i f && holder_acc s j t) eqn:E; auto.
+    simpl in T. apply andb_true_iff in E; destruct E as [E1 E2].
+    apply andb_true_iff in T; destruct T as [TI T].
+    apply wf_set_slot; auto. intros r Hr _. inversion Hr; subst.
+    apply holder_covers; auto using holder_ok_split.
     destruct (rec_ok_spec s i f W E1) as [I [Rv R]].
     apply orb_true_iff in T. destruct T as [T | T].
     + apply Nat.eqb_eq in T; subst; auto.
-    + apply memb_In in T. destruct (holder_ok_spec s j t W E2) as [J _].
+    + apply memb_In in T. destruct (holder_acc_spec s j t W E2) as [J _].
       destruct (inst_ok_spec s j W J) as [_ [Jv _]].
       econstructor; [exact Jv|]. econstructor; [exact T|]. apply sreach_edge; auto.
   - auto.
@@ -813,13 +886,6 @@ Lemma run_wf : forall ops s, wf s -> all_tracked s ops = true -> wf (run s ops).
 Proof.
   unfold run. induction ops as [|o ops IH]; intros s W T; simpl in *; auto.
   apply andb_true_iff in T; destruct T as [T1 T2]. apply IH; auto. apply step_wf; auto.
-Qed.
-
-Lemma no_param_tracked : forall ops s, forallb no_param ops = true -> all_tracked s ops = true.
-Proof.
-  induction ops as [|o ops IH]; intros s H; simpl in *; auto.
-  apply andb_true_iff in H; destruct H as [H1 H2]. rewrite IH; auto.
-  destruct o; simpl in *; auto; discriminate.
 Qed.
 
 Lemma wf_init : forall c, wf (init c).
@@ -869,10 +935,6 @@ Proof.
   intros o r A H. assert (Ar : alive s r = true) by (eapply wf_no_dangling; eauto).
   split; auto. intros k K. eapply wf_no_dangling; eauto.
 Qed.
-
-Corollary safe_without_params : forall c ops, forallb no_param ops = true ->
-  forall i, ~ dangling (run (init c) ops) i.
-Proof. intros c ops H. apply (safe_if_tracked c ops). apply no_param_tracked; auto. Qed.
 
 (* ------------------------------------------------------------------------------------------ *)
 (* closing in any order, with a call in flight *)
@@ -988,8 +1050,8 @@ Qed.
 
 (* ids: 0 cache, 1 engine, 2 runtime; 3 compiled(B); 4 B, 5 B's module engine, 6 B.f, 7 B's private table;
    8 compiled(P); 9 P, 10 P's module engine, 11 P's record of the imported B.f, 12 P.f *)
-Definition spB := mkSpec 3 [] [] 1 0 1 0 4 [].
-Definition spP := mkSpec 8 [(4, 0)] [] 1 0 0 0 4 [].
+Definition spB := mkSpec 3 [] [] 1 0 1 0 4 [] 0 [].
+Definition spP := mkSpec 8 [(4, 0)] [] 1 0 0 0 4 [] 0 [].
 Definition f08_setup := [OCompile; OInstantiate spB; OCompile; OInstantiate spP; OPassParam 9 1 4 0 0].
 Definition f08_close := [OCloseModule 9; OCloseCompiled 8; ODrop 9; OGc].
 
@@ -1020,7 +1082,7 @@ Qed.
 
 (* the same history as the harness states it; the model's verdict on the last call is "dangling use" *)
 Example classify_F08 :
-  classify (true, [mkM [] [] 1 0 1 0 4 []; mkM [(0, 0)] [] 1 0 0 0 4 []],
+  classify (true, [mkM [] [] 1 0 1 0 4 [] 0 []; mkM [(0, 0)] [] 1 0 0 0 4 [] 0 []],
             [HCompile 0; HInst 0; HCompile 1; HInst 1; HPass 1 1 0 0 0; HCallInd 0 0 0;
              HCloseMod 1; HCloseCompiled 1; HDropMod 1; HDropCompiled 1; HGc; HCallInd 0 0 0])
   = [0; 0; 0; 0; 0; 0; 0; 0; 0; 0; 0; 2]%Z.
@@ -1032,8 +1094,8 @@ Proof. vm_compute. reflexivity. Qed.
 (* A exports two functions and a table; B imports A.f0 and the table, has a private table and a global.
    ids: 3 cm(A); 4 A, 5 ME(A), 6 A.f0, 7 A.f1, 8 A's exported table; 9 cm(B); 10 B, 11 ME(B), 12 B's record of A.f0,
    13 B.f0, 14 B's private table, 15 B's global *)
-Definition spA := mkSpec 3 [] [] 2 1 0 0 4 [(0, 0, 0)].
-Definition spB2 := mkSpec 9 [(4, 0)] [(4, 0)] 1 0 1 1 4 [(0, 1, 1); (1, 0, 0)].
+Definition spA := mkSpec 3 [] [] 2 1 0 0 4 [(0, 0, 0)] 0 [].
+Definition spB2 := mkSpec 9 [(4, 0)] [(4, 0)] 1 0 1 1 4 [(0, 1, 1); (1, 0, 0)] 0 [].
 Definition tracked_history :=
   [OCompile; OInstantiate spA; OCompile; OInstantiate spB2;
    OSetRef 10 0 2 1;        (* B puts its own function into the shared table *)
@@ -1047,7 +1109,6 @@ Definition tracked_history :=
 
 Example tracked_history_ok :
   all_tracked (init true) tracked_history = true /\
-  forallb no_param tracked_history = false /\
   let s := run (init true) (firstn 21 tracked_history) in
   (* everything was closed and dropped, yet the in-flight call keeps B, A, both compiled modules, the
      shared table and the records alive; the references B holds are all intact *)
@@ -1074,3 +1135,74 @@ Example gc_collects :
   let s := run (init true) (f08_setup ++ [OCloseModule 9; OCloseCompiled 8; ODrop 9]) in
   alive s 12 = true /\ alive (gc s) 12 = false /\ alive (gc s) 4 = true.
 Proof. vm_compute. repeat split; reflexivity. Qed.
+
+(* ------------------------------------------------------------------------------------------ *)
+(* which channels are tracked, as a specification *)
+
+(* holder h tracks instance i: h is private (only its owner points to it) or lists i among its involving instances *)
+Definition involved (s : state) (i h : nat) : Prop :=
+  (exists c, owner s h = Some c) \/ In i (o_vis (getd s h)).
+
+Lemma involvedb_spec : forall s i h, involvedb s i h = true <-> involved s i h.
+Proof.
+  intros s i h. unfold involvedb, involved, owner. destruct (o_owner (getd s h)) as [c|].
+  - split; auto. intros _. left; eauto.
+  - rewrite memb_In. split; auto. intros [[c K] | K]; auto. discriminate.
+Qed.
+
+Definition tracked_prop (s : state) (o : op) : Prop :=
+  match o with
+  | OSetRef i t k f => holder_acc s i t = true -> rec_ok s i f = true -> involved s i (holder_of s i t)
+  | OCopy i ts ks td kd => holder_acc s i ts = true -> holder_acc s i td = true -> involved s i (holder_of s i td)
+  | OPassParam i f j t k =>
+      rec_ok s i f = true -> holder_acc s j t = true ->
+      involved s j (holder_of s j t) /\ (i = j \/ In (me_of s i) (o_vis (getd s (me_of s j))))
+  | _ => True
+  end.
+
+Lemma tracked_spec : forall s o, tracked s o = true <-> tracked_prop s o.
+Proof.
+  intros s o. destruct o; simpl; try tauto.
+  - rewrite orb_true_iff, negb_true_iff, andb_false_iff, involvedb_spec.
+    destruct (holder_acc s i t); destruct (rec_ok s i f); intuition discriminate.
+  - rewrite orb_true_iff, negb_true_iff, andb_false_iff, involvedb_spec.
+    destruct (holder_acc s i ts); destruct (holder_acc s i td); intuition discriminate.
+  - rewrite orb_true_iff, negb_true_iff, andb_false_iff, andb_true_iff, orb_true_iff, involvedb_spec, Nat.eqb_eq, memb_In.
+    destruct (rec_ok s i f); destruct (holder_acc s j t); intuition discriminate.
+Qed.
+
+(* ------------------------------------------------------------------------------------------ *)
+(* F08b: the same class through an imported mutable funcref GLOBAL *)
+
+(* ids: 3 compiled(A); 4 A, 5 A's module engine, 6 A.f, 7 A's exported global;
+   8 compiled(B); 9 B, 10 B's module engine, 11 B.f.  B imports the global 7 and stores ref.func B.f in it. *)
+Definition spGA := mkSpec 3 [] [] 1 0 0 0 4 [] 1 [].
+Definition spGB := mkSpec 8 [] [] 1 0 0 0 4 [] 0 [(4, 0)].
+Definition f08b_setup := [OCompile; OInstantiate spGA; OCompile; OInstantiate spGB; OSetRef 9 0 0 0].
+Definition f08b_close := [OCloseModule 9; OCloseCompiled 8; ODrop 9; OGc].
+
+Lemma imported_global_refuted :
+  let s1 := run (init true) f08b_setup in
+  let s := run s1 f08b_close in
+  (* the store is performed (B can write the global it imported) but the global tracks nobody *)
+  holder_acc (run (init true) (firstn 4 f08b_setup)) 9 0 = true /\
+  involvedb (run (init true) (firstn 4 f08b_setup)) 9 (holder_of (run (init true) (firstn 4 f08b_setup)) 9 0) = false /\
+  holder_of s1 9 0 = holder_of s1 4 0 /\
+  deref_ok s1 (slot s1 (holder_of s1 4 0) 0) = true /\
+  (* after closing and collecting B: A is live and open, its global still holds the address of B.f *)
+  inst_ok s 4 = true /\ open s 4 = true /\ holder_acc s 4 0 = true /\ In 4 (host s) /\
+  slot s (holder_of s 4 0) 0 = Some 11 /\ alive s 11 = false /\ alive s 8 = false /\
+  deref_ok s (slot s (holder_of s 4 0) 0) = false /\
+  dangling s 4 /\
+  all_tracked (init true) (f08b_setup ++ f08b_close) = false /\ forallb closing f08b_close = true.
+Proof.
+  cbv zeta.
+  assert (E : edges (getd (run (run (init true) f08b_setup) f08b_close) 4) = [7; 5; 2]) by (vm_compute; reflexivity).
+  assert (S : o_slots (getd (run (run (init true) f08b_setup) f08b_close) 7) = [Some 11]) by (vm_compute; reflexivity).
+  repeat match goal with |- _ /\ _ => split end; try (vm_compute; reflexivity).
+  - vm_compute. auto.
+  - split; [vm_compute; reflexivity|]. exists 7, 11. split; [|split].
+    + apply r_step with 7; [rewrite E; simpl; auto | apply r_refl].
+    + rewrite S; simpl; auto.
+    + vm_compute; reflexivity.
+Qed.
